@@ -38,8 +38,8 @@ theorem elemsFresh_spec {f : Dec} {z : GoVal} {xs : List JTree} {vs : List GoVal
 
 /-- What the array loop leaves: position `i < n` holds the fresh decode of element `i` if the
 input has one, the zero value otherwise; the result has exactly `n` elements. -/
-theorem arrayElems_spec {f : Dec} {z : GoVal} {n : Nat} {xs : List JTree} {vs : List GoVal}
-    (h : arrayElems f z n xs = .ok vs) :
+theorem arrayElems_spec {o : UOpts} {f : Dec} {z : GoVal} {n : Nat} {xs : List JTree} {vs : List GoVal}
+    (h : arrayElems o f z n xs = .ok vs) :
     vs.length = n ∧ ∀ i, i < n →
       (match xs[i]? with
        | some x => ∃ v, f x z = .ok v ∧ vs[i]? = some v
@@ -70,7 +70,7 @@ theorem arrayElems_spec {f : Dec} {z : GoVal} {n : Nat} {xs : List JTree} {vs : 
       | error e => simp [hx] at h
       | ok v =>
         simp only [hx] at h
-        cases hr : arrayElems f z n r with
+        cases hr : arrayElems o f z n r with
         | error e => simp [hr] at h
         | ok vr =>
           simp only [hr, Except.ok.injEq] at h
@@ -84,8 +84,8 @@ theorem arrayElems_spec {f : Dec} {z : GoVal} {n : Nat} {xs : List JTree} {vs : 
 
 /-! ### Frame property of the member loop -/
 
-theorem objFold_frame {dec : Bytes → Option Dec} {z : Bytes → GoVal} {ms : List (Bytes × JTree)}
-    {seen : List Bytes} {m m' : List (Bytes × GoVal)} (h : objFold dec z ms seen m = .ok m')
+theorem objFold_frame {o : UOpts} {dec : Bytes → Option Dec} {z : Bytes → GoVal} {ms : List (Bytes × JTree)}
+    {seen : List Bytes} {m m' : List (Bytes × GoVal)} (h : objFold o dec z ms seen m = .ok m')
     (n : Bytes) (hn : n ∉ akeys ms) : alookup n m' = alookup n m := by
   induction ms generalizing seen m with
   | nil => simp only [objFold, Except.ok.injEq] at h; subst h; rfl
@@ -104,8 +104,8 @@ theorem objFold_frame {dec : Bytes → Option Dec} {z : Bytes → GoVal} {ms : L
         · rw [ih h hn.2, alookup_aset_ne (fun e => hn.1 e.symm)]
 
 /-- A successful member loop saw no name twice. -/
-theorem objFold_nodup {dec : Bytes → Option Dec} {z : Bytes → GoVal} {ms : List (Bytes × JTree)}
-    {seen : List Bytes} {m m' : List (Bytes × GoVal)} (h : objFold dec z ms seen m = .ok m') :
+theorem objFold_nodup {o : UOpts} (ho : o.allowDup = false) {dec : Bytes → Option Dec} {z : Bytes → GoVal} {ms : List (Bytes × JTree)}
+    {seen : List Bytes} {m m' : List (Bytes × GoVal)} (h : objFold o dec z ms seen m = .ok m') :
     (akeys ms).Nodup ∧ ∀ n, n ∈ akeys ms → n ∉ seen := by
   induction ms generalizing seen m with
   | nil => exact ⟨List.nodup_nil, by intro n hn; cases hn⟩
@@ -115,8 +115,8 @@ theorem objFold_nodup {dec : Bytes → Option Dec} {z : Bytes → GoVal} {ms : L
     split at h
     · cases h
     · rename_i hs
-      have hks : k ∉ seen := by simpa using hs
-      have key : ∀ {m1}, objFold dec z r (k :: seen) m1 = .ok m' →
+      have hks : k ∉ seen := by simpa [ho] using hs
+      have key : ∀ {m1}, objFold o dec z r (k :: seen) m1 = .ok m' →
           (akeys ((k, j) :: r)).Nodup ∧ ∀ n, n ∈ akeys ((k, j) :: r) → n ∉ seen := by
         intro m1 h'
         obtain ⟨h1, h2⟩ := ih h'
@@ -136,14 +136,14 @@ theorem objFold_nodup {dec : Bytes → Option Dec} {z : Bytes → GoVal} {ms : L
 
 /-! ### `unmAny` is "unmarshal by the dynamic type, store back" -/
 
-theorem unm_any_eq (o : UOpts) : unm o .any = unmAny := by
+theorem unm_any_eq (o : UOpts) : unm o .any = unmAny o := by
   funext j p; simp [unm]
 
 /-- arshal_default.go:1940-1957: the held value is copied into a fresh addressable value of its
 dynamic type, unmarshaled into with that type's arshaler, and stored back. -/
 theorem unmAny_dyn (o : UOpts) (dv : GoVal) (T : GoType) (hT : dv.dynType = some T) (j : JTree)
     (hj : j.isNull = false) :
-    unmAny j (.ifaceOf dv) =
+    unmAny o j (.ifaceOf dv) =
       (match unm o T j dv with
        | .error e => .error e
        | .ok v => .ok (.ifaceOf v)) := by
@@ -152,10 +152,10 @@ theorem unmAny_dyn (o : UOpts) (dv : GoVal) (T : GoType) (hT : dv.dynType = some
       | (simp [JTree.isNull] at hj; done)
       | simp [unm, unmAny, anyPrior, heldMismatch, GoVal.dynType, isBoolV, isFloatV, isStrV, isSliceV,
           unmBool, unmFloat, unmString, unmAnyL_eq, unmAnyM_eq, GoType.zero] <;>
-    simp only [show (fun x x_1 => unmAny x x_1) = unmAny from rfl] <;>
+    simp only [show (fun x x_1 => unmAny o x x_1) = unmAny o from rfl] <;>
     first
       | (generalize elemsFresh _ _ _ = r; cases r <;> rfl)
-      | (generalize objFold _ _ _ _ _ = r; cases r <;> rfl)
+      | (generalize objFold _ _ _ _ _ _ = r; cases r <;> rfl)
 
 /-! ### A successful call has seen no repeated member name anywhere in its input -/
 
@@ -168,8 +168,8 @@ theorem elemsFresh_dupFree {f : Dec} {z : GoVal} {xs : List JTree} {vs : List Go
   obtain ⟨w, _, hw⟩ := (elemsFresh_spec h).2 i x hi
   exact hf x hx _ _ hw
 
-theorem arrayElems_dupFree {f : Dec} {z : GoVal} {n : Nat} {xs : List JTree} {vs : List GoVal}
-    (h : arrayElems f z n xs = .ok vs) (hf : ∀ x, x ∈ xs → ∀ p v, f x p = .ok v → x.dupFree = true) :
+theorem arrayElems_dupFree {o : UOpts} (ho : o.allowDup = false) {f : Dec} {z : GoVal} {n : Nat} {xs : List JTree} {vs : List GoVal}
+    (h : arrayElems o f z n xs = .ok vs) (hf : ∀ x, x ∈ xs → ∀ p v, f x p = .ok v → x.dupFree = true) :
     JTree.dupFreeL xs = true := by
   induction xs generalizing n vs with
   | nil => rfl
@@ -179,6 +179,7 @@ theorem arrayElems_dupFree {f : Dec} {z : GoVal} {n : Nat} {xs : List JTree} {vs
       simp only [arrayElems] at h
       split at h
       · rename_i hx
+        simp only [skipOK, ho, Bool.false_or] at hx
         simp only [JTree.dupFreeL, hx, Bool.true_and]
         exact ih h (fun y hy => hf y (List.mem_cons_of_mem _ hy))
       · cases h
@@ -188,38 +189,38 @@ theorem arrayElems_dupFree {f : Dec} {z : GoVal} {n : Nat} {xs : List JTree} {vs
       | error e => simp [hx] at h
       | ok v =>
         simp only [hx] at h
-        cases hr : arrayElems f z n r with
+        cases hr : arrayElems o f z n r with
         | error e => simp [hr] at h
         | ok vr =>
           simp only [JTree.dupFreeL, hf x List.mem_cons_self _ _ hx, Bool.true_and]
           exact ih hr (fun y hy => hf y (List.mem_cons_of_mem _ hy))
 
-theorem objFold_dupFree {dec : Bytes → Option Dec} {z : Bytes → GoVal} {ms : List (Bytes × JTree)}
-    {m m' : List (Bytes × GoVal)} (h : objFold dec z ms [] m = .ok m')
+theorem objFold_dupFree {o : UOpts} (ho : o.allowDup = false) {dec : Bytes → Option Dec} {z : Bytes → GoVal} {ms : List (Bytes × JTree)}
+    {m m' : List (Bytes × GoVal)} (h : objFold o dec z ms [] m = .ok m')
     (hf : ∀ n j f, (n, j) ∈ ms → dec n = some f → ∀ p v, f j p = .ok v → j.dupFree = true) :
     (JTree.obj ms).dupFree = true := by
-  have hnd := (objFold_nodup h).1
+  have hnd := (objFold_nodup ho h).1
   have F := objFold_facts hnd h
   rw [dupFree_obj]
   refine ⟨hnd, ?_⟩
   intro n j hm
   cases hd : dec n with
-  | none => exact F.unknown n j hm hd
+  | none => simpa [skipOK, ho] using F.unknown n j hm hd
   | some f =>
     obtain ⟨v, hv, _⟩ := F.known n j f hm hd
     exact hf n j f hm hd _ _ hv
 
-theorem unmAny_dupFree : ∀ (j : JTree) (p v : GoVal), unmAny j p = .ok v → j.dupFree = true := by
+theorem unmAny_dupFree (o : UOpts) (ho : o.allowDup = false) : ∀ (j : JTree) (p v : GoVal), unmAny o j p = .ok v → j.dupFree = true := by
   intro j
   induction j using JTree.induct with
   | harr xs ih =>
     intro p v h
     simp only [unmAny] at h
-    cases hp : anyPrior (.arr xs) p isSliceV with
+    cases hp : anyPrior o (.arr xs) p isSliceV with
     | error e => simp [hp] at h
     | ok u =>
       simp only [hp] at h
-      cases hl : unmAnyL xs with
+      cases hl : unmAnyL o xs with
       | error e => simp [hl] at h
       | ok vs =>
         rw [unmAnyL_eq] at hl
@@ -227,31 +228,31 @@ theorem unmAny_dupFree : ∀ (j : JTree) (p v : GoVal), unmAny j p = .ok v → j
         exact elemsFresh_dupFree hl (fun x hx p v hv => ih x hx p v hv)
   | hobj ms ih =>
     intro p v h
-    have key : ∀ m0 m, unmAnyM ms [] m0 = .ok m → (JTree.obj ms).dupFree = true := by
+    have key : ∀ m0 m, unmAnyM o ms [] m0 = .ok m → (JTree.obj ms).dupFree = true := by
       intro m0 m hm
       rw [unmAnyM_eq] at hm
-      apply objFold_dupFree hm
+      apply objFold_dupFree ho hm
       intro n j f hmem hd p v hv
       simp only [Option.some.injEq] at hd
       subst hd
       exact ih n j hmem p v hv
     simp only [unmAny] at h
     split at h
-    · cases hm : unmAnyM ms [] [] with
+    · cases hm : unmAnyM o ms [] [] with
       | error e => simp [hm] at h
       | ok m => exact key _ _ hm
-    · cases hm : unmAnyM ms [] [] with
+    · cases hm : unmAnyM o ms [] [] with
       | error e => simp [hm] at h
       | ok m => exact key _ _ hm
     · rename_i m0
-      cases hm : unmAnyM ms [] m0 with
+      cases hm : unmAnyM o ms [] m0 with
       | error e => simp [hm] at h
       | ok m => exact key _ _ hm
     · cases h
     · cases h
   | _ => intro p v _; rfl
 
-theorem unm_dupFree (o : UOpts) : ∀ (T : GoType) (j : JTree) (p v : GoVal), unm o T j p = .ok v → j.dupFree = true := by
+theorem unm_dupFree (o : UOpts) (ho : o.allowDup = false) : ∀ (T : GoType) (j : JTree) (p v : GoVal), unm o T j p = .ok v → j.dupFree = true := by
   intro T
   induction T using GoType.induct with
   | hbool => intro j p v h; cases j <;> first | rfl | (simp [unm, unmBool] at h)
@@ -259,7 +260,7 @@ theorem unm_dupFree (o : UOpts) : ∀ (T : GoType) (j : JTree) (p v : GoVal), un
   | huint b => intro j p v h; cases j <;> first | rfl | (simp [unm, unmUint] at h)
   | hfloat => intro j p v h; cases j <;> first | rfl | (simp [unm, unmFloat] at h)
   | hstring => intro j p v h; cases j <;> first | rfl | (simp [unm, unmString] at h)
-  | hany => intro j p v h; rw [unm_any_eq] at h; exact unmAny_dupFree j p v h
+  | hany => intro j p v h; rw [unm_any_eq] at h; exact unmAny_dupFree o ho j p v h
   | hslice t ih =>
     intro j p v h
     cases j with
@@ -275,30 +276,30 @@ theorem unm_dupFree (o : UOpts) : ∀ (T : GoType) (j : JTree) (p v : GoVal), un
     cases j with
     | arr xs =>
       simp only [unm] at h
-      cases he : arrayElems (unm o t) t.zero n xs with
+      cases he : arrayElems o (unm o t) t.zero n xs with
       | error e => simp [he] at h
-      | ok vs => simp only [JTree.dupFree]; exact arrayElems_dupFree he (fun x _ p v hv => ih x p v hv)
+      | ok vs => simp only [JTree.dupFree]; exact arrayElems_dupFree ho he (fun x _ p v hv => ih x p v hv)
     | obj ms => simp [unm] at h
     | _ => rfl
   | hmap t ih =>
     intro j p v h
     cases j with
     | obj ms =>
-      have key : ∀ m0 m, objFold (fun _ => some (unm o t)) (fun _ => t.zero) ms [] m0 = .ok m →
+      have key : ∀ m0 m, objFold o (fun _ => some (unm o t)) (fun _ => t.zero) ms [] m0 = .ok m →
           (JTree.obj ms).dupFree = true := by
         intro m0 m hm
-        apply objFold_dupFree hm
+        apply objFold_dupFree ho hm
         intro n j f _ hd p v hv
         simp only [Option.some.injEq] at hd
         subst hd
         exact ih j p v hv
       simp only [unm] at h
       split at h
-      · cases hm : objFold (fun _ => some (unm o t)) (fun _ => t.zero) ms [] [] with
+      · cases hm : objFold o (fun _ => some (unm o t)) (fun _ => t.zero) ms [] [] with
         | error e => simp [hm] at h
         | ok m => exact key _ _ hm
       · rename_i m0
-        cases hm : objFold (fun _ => some (unm o t)) (fun _ => t.zero) ms [] m0 with
+        cases hm : objFold o (fun _ => some (unm o t)) (fun _ => t.zero) ms [] m0 with
         | error e => simp [hm] at h
         | ok m => exact key _ _ hm
       · cases h
@@ -311,10 +312,10 @@ theorem unm_dupFree (o : UOpts) : ∀ (T : GoType) (j : JTree) (p v : GoVal), un
       simp only [unm] at h
       split at h
       · rename_i fvs
-        cases hm : objFold (fieldDec o fs) (fieldZero fs) ms [] fvs with
+        cases hm : objFold o (fieldDec o fs) (fieldZero fs) ms [] fvs with
         | error e => simp [hm] at h
         | ok m =>
-          apply objFold_dupFree hm
+          apply objFold_dupFree ho hm
           intro n j f _ hd p v hv
           obtain ⟨t, hl, rfl⟩ := fieldDec_some hd
           exact ih n t (alookup_mem hl) j p v hv
@@ -340,12 +341,12 @@ theorem unm_dupFree (o : UOpts) : ∀ (T : GoType) (j : JTree) (p v : GoVal), un
 /-! ### Chains -/
 
 /-- `merge_law_unm` with the duplicate-freeness derived from the success of the two calls. -/
-theorem merge_law_unm' (o : UOpts) (T : GoType) (hwf : T.wf = true) (j1 j2 : JTree) (v1 v2 : GoVal)
+theorem merge_law_unm' (o : UOpts) (ho : o.allowDup = false) (T : GoType) (hwf : T.wf = true) (j1 j2 : JTree) (v1 v2 : GoVal)
     (h1 : unm o T j1 T.zero = .ok v1) (h2 : unm o T j2 v1 = .ok v2) :
     unm o T (JTree.merge j1 j2) T.zero = .ok v2 :=
-  merge_law_unm o T hwf j1 j2 v1 v2 (unm_dupFree o T j1 _ _ h1) (unm_dupFree o T j2 _ _ h2) h1 h2
+  merge_law_unm o T hwf j1 j2 v1 v2 (unm_dupFree o ho T j1 _ _ h1) (unm_dupFree o ho T j2 _ _ h2) h1 h2
 
-theorem chain_fold (o : UOpts) (T : GoType) (hwf : T.wf = true) :
+theorem chain_fold (o : UOpts) (ho : o.allowDup = false) (T : GoType) (hwf : T.wf = true) :
     ∀ (js : List JTree) (acc : JTree) (v0 v : GoVal),
       unm o T acc T.zero = .ok v0 → unmChain o T js v0 = .ok v →
       unm o T (js.foldl JTree.merge acc) T.zero = .ok v := by
@@ -359,6 +360,6 @@ theorem chain_fold (o : UOpts) (T : GoType) (hwf : T.wf = true) :
     | error e => simp [hj] at h
     | ok v1 =>
       simp only [hj] at h
-      exact ih (JTree.merge acc j) v1 v (merge_law_unm' o T hwf acc j v0 v1 h0 hj) h
+      exact ih (JTree.merge acc j) v1 v (merge_law_unm' o ho T hwf acc j v0 v1 h0 hj) h
 
 end JsonV.Lemmas.Merge
